@@ -729,6 +729,14 @@ func (c *Ctx) checkFailureReported(rel string) {
 				}
 			}
 			nCalls++
+			// the error handed straight to a sentinel filter (`err = exceptNotFound(stmt(...))`, nil
+			// only for the sentinel): the statement failed with another error, the filter's result is
+			// that error
+			if refs := eVal.Referrers(); refs != nil && len(*refs) == 1 {
+				if fc, isCall := (*refs)[0].(*ssa.Call); isCall && isSentinelFilter(fc.Call.StaticCallee()) {
+					eVal, call = fc, fc
+				}
+			}
 			// the statement is assumed to have failed (however its error is tested afterwards)
 			init := core.NilFacts{eVal: false}
 			if ex, isEx := eVal.(*ssa.Extract); isEx {
@@ -795,4 +803,35 @@ func throughSameField(v, ref ssa.Value) bool {
 	}
 	f1, f2 := fieldOf(v), fieldOf(ref)
 	return f1 != nil && f1 == f2
+}
+
+// isSentinelFilter: g(err error) error returns its argument, or nil only on edges where the
+// argument was found equal to a non-nil sentinel.
+func isSentinelFilter(g *ssa.Function) bool {
+	if g == nil || !core.InModule(g) || len(g.Blocks) == 0 || len(g.Params) != 1 || g.Signature.Results().Len() != 1 {
+		return false
+	}
+	errT := types.Universe.Lookup("error").Type()
+	if !types.Identical(g.Params[0].Type(), errT) || !types.Identical(g.Signature.Results().At(0).Type(), errT) {
+		return false
+	}
+	ok := true
+	core.AllInstrs(g, func(in ssa.Instruction) {
+		ret, isRet := in.(*ssa.Return)
+		if !isRet {
+			return
+		}
+		v := core.Strip(ret.Results[0])
+		if v != ssa.Value(g.Params[0]) && !core.IsNil(v) {
+			ok = false
+		}
+	})
+	if !ok {
+		return false
+	}
+	found, _ := core.PathAvoiding(g, nil, func(in ssa.Instruction) bool {
+		ret, isRet := in.(*ssa.Return)
+		return isRet && core.IsNil(core.Strip(ret.Results[0]))
+	}, nil, sentinelEqEdges(g))
+	return !found
 }
